@@ -28,7 +28,13 @@ import (
 	"time"
 )
 
-const root = "/verif"
+// root is /verif, or the directory of the snapshot the check script was started from (vp run).
+var root = func() string {
+	if r := os.Getenv("VERIF_ROOT"); r != "" {
+		return r
+	}
+	return "/verif"
+}()
 
 var goBin = "go1.26.8"
 
